@@ -12,7 +12,7 @@
 // harness: k_csi_scalar_hlm props=C03,C20 kind=complete tier=thorough timeout=2400 obligation=Parser::csi_dispatch/E1(scalar,h,l,m outside the list-valued marker combinations)
 // harness: k_csi_scalar_70 props=C03,C20 kind=complete tier=quick timeout=900 obligation=Parser::csi_dispatch/E1(scalar,0x70-0x77)
 // harness: k_csi_scalar_78 props=C03,C20 kind=complete tier=quick timeout=900 obligation=Parser::csi_dispatch/E1(scalar,0x78-0x7e)
-// harness: k_csi_other props=C03,C20 kind=complete tier=thorough timeout=1800 obligation=Parser::csi_dispatch/E1(final outside 0x40-0x7e folded range)
+// harness: k_csi_other props=C03,C20 kind=complete tier=quick timeout=600 obligation=Parser::csi_dispatch/E1(final outside 0x40-0x7e folded range)
 // harness: k_csi_modes_sm props=C03 kind=bounded tier=thorough timeout=1800 obligation=Parser::csi_dispatch/E1(SM) bound="3 parameters, values fully symbolic"
 // harness: k_csi_modes_rm props=C03 kind=bounded tier=thorough timeout=1800 obligation=Parser::csi_dispatch/E1(RM) bound="2 parameters, values fully symbolic"
 // harness: k_csi_modes_decset props=C03 kind=bounded tier=thorough timeout=1800 obligation=Parser::csi_dispatch/E1(DECSET) bound="3 parameters, values fully symbolic"
@@ -232,9 +232,11 @@ mod verif_kani_parser {
         // point >= U+00A0 folded to 'A' by feed) must dispatch to nothing
         let c: char = kani::any();
         kani::assume(!('\u{40}'..='\u{7e}').contains(&c));
-        let mut p = any_parser(3);
+        // the parameters play no part for such a character (no arm can match): concrete zeros, any marker
+        let mut p = Parser::new();
+        p.intermediate = if kani::any() { Some(kani::any()) } else { None };
         let r = p.csi_dispatch(c);
-        assert!(key(&r).0 == 0);
+        assert!(r.is_none());
         kani::cover!(c as u32 > 0xa0);
     }
 
